@@ -123,19 +123,24 @@ Fixpoint span_digits (s : bytes) (acc : Z) (cnt : Z) : Z * Z * bytes :=
 Definition lower (s : bytes) : bytes := map to_lower s.
 Definition f64_nan : Z := (2047 * two52 + 2 ^ 51)%Z.
 
-Definition parse_f64 (s : bytes) : option Z :=
-  let '(neg, body) := match s with
-                      | 45 :: r => (true, r)
-                      | 43 :: r => (false, r)
-                      | _ => (false, s)
-                      end in
+Definition split_sign (s : bytes) : bool * bytes :=
+  match s with
+  | 45 :: r => (true, r)
+  | 43 :: r => (false, r)
+  | _ => (false, s)
+  end.
+Definition kw_inf : bytes := [105; 110; 102].
+Definition kw_infinity : bytes := [105; 110; 102; 105; 110; 105; 116; 121].
+Definition kw_nan : bytes := [110; 97; 110].
+
+(** the part after the optional sign *)
+Definition parse_f64_unsigned (neg : bool) (body : bytes) : option Z :=
   match body with
   | [] => None
   | _ =>
     let lb := lower body in
-    if bytes_eqb lb [105; 110; 102] || bytes_eqb lb [105; 110; 102; 105; 110; 105; 116; 121]
-    then Some (f64_with_sign neg f64_inf)
-    else if bytes_eqb lb [110; 97; 110] then Some (f64_with_sign neg f64_nan)
+    if bytes_eqb lb kw_inf || bytes_eqb lb kw_infinity then Some (f64_with_sign neg f64_inf)
+    else if bytes_eqb lb kw_nan then Some (f64_with_sign neg f64_nan)
     else
       let '(m1, n1, r1) := span_digits body 0%Z 0%Z in
       let '(m2, n2, r2) := match r1 with
@@ -147,11 +152,7 @@ Definition parse_f64 (s : bytes) : option Z :=
       | [] => Some (f64_of_dec neg m2 (- n2)%Z)
       | c :: r =>
           if (c =? 101) || (c =? 69) then
-            let '(eneg, r') := match r with
-                               | 45 :: x => (true, x)
-                               | 43 :: x => (false, x)
-                               | _ => (false, r)
-                               end in
+            let '(eneg, r') := split_sign r in
             match digits_opt r' with
             | Some e => Some (f64_of_dec neg m2 ((if eneg then - e else e) - n2)%Z)
             | None => None
@@ -159,6 +160,8 @@ Definition parse_f64 (s : bytes) : option Z :=
           else None
       end
   end.
+Definition parse_f64 (s : bytes) : option Z :=
+  let '(neg, body) := split_sign s in parse_f64_unsigned neg body.
 
 (** [a.eq_ignore_ascii_case(b)] *)
 Definition eq_ignore_case (a b : bytes) : bool := bytes_eqb (lower a) (lower b).
